@@ -200,6 +200,14 @@ class Ctx:
         v = self._native_vals(name, 1, sampler or (lambda r: abs(r.gauss(0, self.scale)) + 0.01))[0]
         return float(v) if kind == "real" else (int(v) if kind == "int" else bool(v))
 
+    def tensor(self, values, dtype=torch.float32):
+        """build a tensor from a payload array (object ndarray / nested list of scalars) in the current mode"""
+        arr = np.asarray(values, dtype=object)
+        if self.mode == "sym":
+            return SymTensor(arr.copy(), None, dtype)
+        flat = [float(v) for v in arr.reshape(-1)]
+        return torch.tensor(flat, dtype=torch.float64).reshape(arr.shape).to(dtype)
+
     # -- preconditions ----------------------------------------------------------------------------
     def assume(self, cond):
         if self.mode == "sym":
@@ -359,7 +367,21 @@ def run_symbolic(spec, cfg, max_paths=4096, solver_timeout_ms=20000, crosscheck=
     nq = 0
     solver_s = 0.0
     err = None
-    path_records = []
+    # differential cross-check: native samples drawn first, matched against every path as it completes
+    samples = []
+    cc_fail = None
+    if crosscheck:
+        rng = random.Random(seed * 7919 + 17)
+        tries = 0
+        while len(samples) < crosscheck and tries < 20 * crosscheck:
+            tries += 1
+            try:
+                claims, nctx = run_native(spec.body, cfg, rng=rng)
+            except Exception as e:
+                cc_fail = f"native run crashed: {type(e).__name__}: {e}"
+                break
+            if claims is not None:
+                samples.append({"ctx": nctx, "matched": False})
     try:
         def body(ex):
             ctx = Ctx("sym", acc, ex=ex)
@@ -370,8 +392,13 @@ def run_symbolic(spec, cfg, max_paths=4096, solver_timeout_ms=20000, crosscheck=
             npaths += 1
             nq += ex.nqueries
             solver_s += ex.solver_time
-            if crosscheck and len(path_records) < 512:
-                path_records.append((ex, ctx))
+            for smp in samples:
+                if not smp["matched"] and cc_fail is None:
+                    r = cross_check_path(ex, ctx, smp["ctx"])
+                    if r is True:
+                        smp["matched"] = True
+                    elif r is not None:
+                        cc_fail = r
     except S.Unsupported as e:
         err = ("unsupported", str(e))
     except X.PathBudget as e:
@@ -417,10 +444,13 @@ def run_symbolic(spec, cfg, max_paths=4096, solver_timeout_ms=20000, crosscheck=
         if rec.get("note"):
             r.detail = (r.detail + " | " if r.detail else "") + rec["note"]
         results.append(r)
-    # differential cross-check of the engine against CPython/torch
-    if crosscheck and path_records and err is None:
-        cc = cross_check(spec, cfg, path_records, crosscheck, seed)
-        results.append(ObResult(ob=f"{spec.id}/__crosscheck__", kind="crosscheck", verdict="discharged" if cc[0] else "error", detail=cc[1], backend="native", **base))
+    if crosscheck and err is None:
+        if cc_fail is None and samples and not all(s_["matched"] for s_ in samples):
+            miss = next(s_ for s_ in samples if not s_["matched"])
+            cc_fail = f"no symbolic path covers native input {_jsonable(miss['ctx'].drawn)}"
+        if cc_fail is None and not samples:
+            cc_fail = "cross-check could not draw any admissible input"
+        results.append(ObResult(ob=f"{spec.id}/__crosscheck__", kind="crosscheck", verdict="discharged" if cc_fail is None else "error", detail=cc_fail or f"{len(samples)} random inputs: symbolic result == native result", backend="native", **base))
     return results
 
 
@@ -444,82 +474,61 @@ def _tree_leaves(o, out):
     return out
 
 
-def cross_check(spec, cfg, path_records, n, seed):
-    """For n random native inputs: the symbolic outcome of the matching path, evaluated at that input, must equal the native outcome."""
-    rng = random.Random(seed * 7919 + 17)
-    done = 0
-    tries = 0
-    while done < n and tries < 20 * n:
-        tries += 1
-        claims, nctx = run_native(spec.body, cfg, rng=rng)
-        if claims is None:
+def cross_check_path(ex, sctx, nctx):
+    """If the native input of nctx satisfies this path's condition, compare outcomes.  True = matched and equal,
+    None = this path does not cover the input, str = discrepancy."""
+    drawn = nctx.drawn
+    s = z3.Solver()
+    s.set("timeout", 10000)
+    for c in ex.sides + ex.assumes + ex.pc:
+        s.add(c)
+    for name, (kind, shape, zs) in sctx.vars.items():
+        if name not in drawn:
+            return None
+        for zv, val in zip(zs, drawn[name]):
+            if kind == "bit":
+                s.add(zv == bool(int(val)))
+            elif kind == "int":
+                s.add(zv == int(val))
+            else:
+                fv = Fraction(float(val))  # the native run saw the float rounding of the drawn value
+                s.add(zv == z3.RealVal(f"{fv.numerator}/{fv.denominator}"))
+    if s.check() != z3.sat:
+        return None
+    m = s.model()
+    if len(sctx.calls) != len(nctx.calls):
+        return f"call count differs on input {_jsonable(drawn)}"
+    for so, no in zip(sctx.calls, nctx.calls):
+        if (so.exc is None) != (no.exc is None):
+            return f"exception behaviour differs: symbolic {so!r} native {no!r} on {_jsonable(drawn)}"
+        if so.exc is not None:
+            if type(so.exc) is not type(no.exc):
+                return f"exception type differs: {so.exc!r} vs {no.exc!r}"
             continue
-        drawn = nctx.drawn
-        matched = False
-        for ex, sctx in path_records:
-            s = z3.Solver()
-            s.set("timeout", 10000)
-            for c in ex.sides + ex.assumes + ex.pc:
-                s.add(c)
-            ok = True
-            for name, (kind, shape, zs) in sctx.vars.items():
-                if name not in drawn:
-                    ok = False
-                    break
-                for zv, val in zip(zs, drawn[name]):
-                    if kind == "bit":
-                        s.add(zv == bool(int(val)))
-                    elif kind == "int":
-                        s.add(zv == int(val))
-                    else:
-                        # the native run saw the float32/64 rounding of the drawn value
-                        fv = Fraction(float(val))
-                        s.add(zv == z3.RealVal(f"{fv.numerator}/{fv.denominator}"))
-            if not ok:
-                continue
-            if s.check() != z3.sat:
-                continue
-            matched = True
-            m = s.model()
-            if len(sctx.calls) != len(nctx.calls):
-                return False, f"call count differs on input {drawn}"
-            for so, no in zip(sctx.calls, nctx.calls):
-                if (so.exc is None) != (no.exc is None):
-                    return False, f"exception behaviour differs: symbolic {so!r} native {no!r} on {_jsonable(drawn)}"
-                if so.exc is not None:
-                    if type(so.exc) is not type(no.exc):
-                        return False, f"exception type differs: {so.exc!r} vs {no.exc!r}"
+        sl, nl = _tree_leaves(so.value, []), _tree_leaves(no.value, [])
+        if len(sl) != len(nl):
+            return "result structure differs"
+        for a, b in zip(sl, nl):
+            if isinstance(a, torch.Tensor) != isinstance(b, torch.Tensor):
+                return "result leaf kind differs"
+            if isinstance(a, torch.Tensor):
+                if tuple(a.shape) != tuple(b.shape) or a.dtype != b.dtype:
+                    return f"shape/dtype differ: {tuple(a.shape)},{a.dtype} vs {tuple(b.shape)},{b.dtype}"
+                (ar, ai), (br, bi) = payload(a), payload(b)
+                pairs = list(zip(ar.reshape(-1), br.reshape(-1)))
+                if ai is not None:
+                    pairs += list(zip(ai.reshape(-1), bi.reshape(-1)))
+            else:
+                pairs = [(a, S.norm(b) if not isinstance(b, S.Sym) else b)]
+            for p, q in pairs:
+                pv = _eval_payload(p, m)
+                if isinstance(pv, float) or isinstance(q, float):
+                    if not (isinstance(pv, float) and isinstance(q, float) and (pv == q or (math.isnan(pv) and math.isnan(q)))):
+                        return f"value differs: symbolic {pv} native {q}"
                     continue
-                sl, nl = _tree_leaves(so.value, []), _tree_leaves(no.value, [])
-                if len(sl) != len(nl):
-                    return False, "result structure differs"
-                for a, b in zip(sl, nl):
-                    if isinstance(a, torch.Tensor) != isinstance(b, torch.Tensor):
-                        return False, "result leaf kind differs"
-                    if isinstance(a, torch.Tensor):
-                        if tuple(a.shape) != tuple(b.shape) or a.dtype != b.dtype:
-                            return False, f"shape/dtype differ: {tuple(a.shape)},{a.dtype} vs {tuple(b.shape)},{b.dtype}"
-                        (ar, ai), (br, bi) = payload(a), payload(b)
-                        pairs = list(zip(ar.reshape(-1), br.reshape(-1)))
-                        if ai is not None:
-                            pairs += list(zip(ai.reshape(-1), bi.reshape(-1)))
-                    else:
-                        pairs = [(a, S.norm(b) if not isinstance(b, S.Sym) else b)]
-                    for p, q in pairs:
-                        pv = _eval_payload(p, m)
-                        if isinstance(pv, float) or isinstance(q, float):
-                            if not (isinstance(pv, float) and isinstance(q, float) and (pv == q or (math.isnan(pv) and math.isnan(q)))):
-                                return False, f"value differs: symbolic {pv} native {q}"
-                            continue
-                        if abs(Fraction(pv) - Fraction(q)) > Fraction(1, 2000) * max(1, abs(Fraction(q))):
-                            return False, f"value differs: symbolic {float(pv)} native {float(q)} on input {_jsonable(drawn)}"
-            break
-        if not matched:
-            return False, f"no symbolic path covers native input {_jsonable(drawn)}"
-        done += 1
-    if done == 0:
-        return False, "cross-check could not draw any admissible input"
-    return True, f"{done} random inputs: symbolic result == native result"
+                if abs(Fraction(pv) - Fraction(q)) > Fraction(1, 2000) * max(1, abs(Fraction(q))):
+                    return f"value differs: symbolic {float(pv)} native {float(q)} on input {_jsonable(drawn)}"
+    return True
 
 
 # ------------------------------------------------------------------------------------------------
